@@ -7,6 +7,7 @@ import (
 	"sync"
 	"time"
 
+	"github.com/lindb/lindb/internal/verifhook"
 	"github.com/lindb/lindb/pkg/queue"
 	"github.com/lindb/lindb/pkg/queue/page"
 )
@@ -34,7 +35,8 @@ type gate struct {
 var (
 	gateMu     sync.Mutex
 	gates      []*gate // armed gates; several may hold a parked store at the same time
-	faultMatch string // one-shot: the next page factory whose path matches fails to open
+	yieldG     *gate   // armed yield point (match = the id given to verifhook.Yield)
+	faultMatch string  // one-shot: the next page factory whose path matches fails to open
 	faultFired bool
 )
 
@@ -73,6 +75,35 @@ func armSyncGate(match string, skip int, noPark bool, fail error) *gate {
 	gates = append(gates, g)
 	gateMu.Unlock()
 	return g
+}
+
+// armYield arms the one yield gate: the next verifhook.Yield(id) parks its goroutine.
+func armYield(id string) *gate {
+	g := &gate{match: id, hit: make(chan struct{}, 1), release: make(chan struct{})}
+	gateMu.Lock()
+	yieldG = g
+	gateMu.Unlock()
+	return g
+}
+
+func disarmYield() {
+	gateMu.Lock()
+	yieldG = nil
+	gateMu.Unlock()
+}
+
+// yieldHook is installed as the verifhook scheduler for the duration of the area's run.
+func yieldHook(id string) {
+	gateMu.Lock()
+	g := yieldG
+	if g == nil || g.fired || g.match != id {
+		gateMu.Unlock()
+		return
+	}
+	g.fired = true
+	gateMu.Unlock()
+	g.hit <- struct{}{}
+	<-g.release
 }
 
 // disarmGate disarms every gate (parked stores must have been released before).
@@ -194,6 +225,15 @@ func (p *gatedPage) Sync() error {
 
 // installSeam wraps the meta page factories of consumer groups; returns the restore function.
 func installSeam() func() {
+	verifhook.Set(yieldHook)
+	restore := installPageSeam()
+	return func() {
+		restore()
+		verifhook.Set(nil)
+	}
+}
+
+func installPageSeam() func() {
 	return queue.VerifC05SetPageFactory(func(path string, pageSize int) (page.Factory, error) {
 		gateMu.Lock()
 		if faultMatch != "" && strings.Contains(path+"/", faultMatch) {
